@@ -35,3 +35,7 @@ package ws
 //@
 //@ func (wsTran).listener
 //@   ensures isnil(result1) ==> result0 != nil && len(result0.ug.Subprotocols) == 1 && result0.ug.Subprotocols[0] == result0.proto.SelfName + ".sp.nanomsg.org"
+//@
+//@ func (*listener).Close
+//@   loop 1 complete
+//@   before call:Close#2 assert callee_is("(*transport/ws.wsPipe).Close")
